@@ -73,7 +73,6 @@ func phases(thorough bool) []phase {
 			{"atoms", atoms, everySite},
 			{"pairs_of_critical_atoms", critPairs, func(s *Site) bool { return s.Ctx == "" || !s.Secondary }},
 			{"pairs_with_a_critical_atom", crit1Pairs, primaryNoCtx},
-			{"pairs_with_a_core_atom", core1Pairs, primaryNoCtx},
 		}
 	}
 	allPairs := pairs(func(a, b string) bool { return true })
